@@ -4,6 +4,19 @@ from harness import gen_net, netsession
 from harness.gen_rf import rbytes
 
 
+_SPEC = {}
+
+
+def spec(q):
+    """evaluate an executable spec of lean/NrfModel/Spec/Multicast.lean through the driver (memoised)"""
+    if q not in _SPEC:
+        r = run_driver([q])[0]
+        if r == "bad-op":
+            raise Infra("spec op failed: " + q)
+        _SPEC[q] = r
+    return _SPEC[q]
+
+
 def level_of(addr):
     l = 0
     while addr:
@@ -74,7 +87,7 @@ class C14(PropCheck):
                     return None
                 s, lvl, typ, msg, result, kk = cur
                 src = addr[s]
-                target = level_of(src) if lvl == "N" else int(lvl)
+                target = int(spec(f"spectarget {level_of(src)} {lvl}"))   # Spec.Multicast.targetLevel
                 # receivers on the target level; relays push it one level further (levels 1..3 only)
                 expect = {}
                 frontier = [(target, s)]
@@ -84,16 +97,16 @@ class C14(PropCheck):
                     if L in seen_levels or L > 4:
                         continue
                     seen_levels.add(L)
+                    nxt = spec(f"specrelay {L}")                               # Spec.Multicast.relayLevel(s)
                     for n, a in addr.items():
-                        if n != origin and n != s and level_of(a) == L and allow[n]:
+                        # Spec.Multicast.holdsLevel: allow_multicast and on level L (or: master without it, L = 0)
+                        if n != origin and n != s and spec(f"spechold {1 if allow[n] else 0} {a} {L}") == "1":
                             expect[n] = expect.get(n, 0) + 1
-                            if relay[n] and 1 <= L <= 3:
-                                frontier.append((L + 1, n))
+                            if relay[n] and allow[n] and nxt != "N":
+                                frontier.append((int(nxt), n))
                 for n in addr:
                     if n == s:
                         continue   # the sender itself: a relayed copy may or may not come back to it (half duplex)
-                    if level_of(addr[n]) == 0 and not allow[n]:
-                        continue   # the master's private pipe-0 address *is* the level-0 address (addressing scheme)
                     real = [f for f in got.get(n, []) if f != "N"]
                     want = 1 if n in expect else 0
                     if len(real) != want:
